@@ -1,5 +1,360 @@
-//! C02 - monitor not written yet.
+//! C02 - a dewey pattern matches exactly the same-base packages inside its
+//! range; Dewey and Pattern agree; malformed operator sequences are rejected.
 
-use crate::fw::Cx;
+use crate::corpus;
+use crate::fw::{CaseResult, Cx, Ev, Tier};
+use crate::gen::version as gv;
+use crate::oracle::dewey::{self as od, Op, OPS};
+use crate::oracle::pattern::{self as opat, DeweyParse};
+use crate::rng::{hash_strs, Rng};
+use pkgsrc::{Dewey, Pattern};
 
-pub fn run(_cx: &mut Cx) {}
+const BASES: [&str; 16] = [
+    "foo", "f", "", "foo-bar", "foo-1", "-", "é", "foo.bar", "Foo", "ab", "a", "py312-foo", "x*y",
+    "p5-Foo", "foo-", "-foo",
+];
+
+fn bound(r: &mut Rng) -> String {
+    match r.below(12) {
+        0 => String::new(),
+        1 => "0".into(),
+        _ => loop {
+            let v = gv::v_safe(r);
+            if !v.contains('=') {
+                return v;
+            }
+        },
+    }
+}
+
+/// Operator sequence as a list of operators; classes cover 0..4 operators,
+/// all orders.
+fn opseq(r: &mut Rng) -> Vec<Op> {
+    let n = match r.below(20) {
+        0 => 0,
+        1..=8 => 1,
+        9..=16 => 2,
+        17..=18 => 3,
+        _ => 4,
+    };
+    if n == 2 && r.chance(3, 5) {
+        // well-ordered pair: lower bound then upper bound
+        return vec![*r.pick(&[Op::Gt, Op::Ge]), *r.pick(&[Op::Lt, Op::Le])];
+    }
+    (0..n).map(|_| *r.pick(&OPS)).collect()
+}
+
+fn related_base(r: &mut Rng, base: &str) -> (String, &'static str) {
+    match r.below(12) {
+        0..=4 => (base.to_string(), "same"),
+        5 => {
+            let c: Vec<char> = base.chars().collect();
+            if c.is_empty() {
+                ("x".into(), "extension")
+            } else {
+                (c[..c.len() - 1].iter().collect(), "proper-prefix")
+            }
+        }
+        6 => {
+            let c: Vec<char> = base.chars().collect();
+            if c.is_empty() {
+                ("x".into(), "extension")
+            } else {
+                (c[1..].iter().collect(), "proper-suffix")
+            }
+        }
+        7 => (format!("{base}x"), "extension"),
+        8 => (format!("x{base}"), "prepended"),
+        9 => (format!("{base}-x"), "extra-segment"),
+        10 => {
+            let flipped: String = base
+                .chars()
+                .map(|c| if c.is_ascii_lowercase() { c.to_ascii_uppercase() } else { c.to_ascii_lowercase() })
+                .collect();
+            if flipped == base {
+                (format!("{base}y"), "extension")
+            } else {
+                (flipped, "case-changed")
+            }
+        }
+        _ => (String::new(), if base.is_empty() { "same" } else { "empty" }),
+    }
+}
+
+fn expected_match(d: &opat::RefDewey, name: &str) -> Option<bool> {
+    let Some((b, v)) = opat::split_name(name) else { return Some(false) };
+    if b != d.base {
+        return Some(false);
+    }
+    let mut all = true;
+    for (op, bnd) in &d.bounds {
+        let s = od::satisfies(v, *op, bnd);
+        if s.rank != s.ascii || !s.in_domain {
+            return None; // outside the K1-free / 18-digit domain: no comparison
+        }
+        all &= s.rank;
+    }
+    Some(all)
+}
+
+fn check_case(ev: &mut Ev, pat: &str, names: &[(String, &'static str)]) -> CaseResult {
+    let want = opat::parse_dewey(pat);
+    let dew = Dewey::new(pat);
+    let nops = opat::scan_ops(pat).len();
+    ev.eval();
+    let class = match &want {
+        DeweyParse::Ok(d) => {
+            if d.bounds.len() == 1 {
+                "ops1"
+            } else {
+                "ops2"
+            }
+        }
+        DeweyParse::NoOperator => "ops0",
+        DeweyParse::TooMany(_) => "ops3plus",
+        DeweyParse::BadOrder => "ops2-badorder",
+    };
+    ev.count(&format!("compile/{class}"));
+    match (&want, &dew) {
+        (DeweyParse::Ok(_), Err(e)) => {
+            return Err(format!("Dewey::new({pat:?}) rejected a well-formed comparison pattern: {e}").into())
+        }
+        (DeweyParse::Ok(_), Ok(_)) => {}
+        (_, Ok(_)) => {
+            return Err(format!(
+                "Dewey::new({pat:?}) accepted a pattern with {nops} operators / wrong order ({class})"
+            )
+            .into())
+        }
+        (_, Err(_)) => {}
+    }
+    // Pattern::new must agree with Dewey::new whenever it dispatches to the
+    // comparison matcher, i.e. whenever an operator is present.
+    let p = if nops > 0 {
+        let p = Pattern::new(pat);
+        ev.eval();
+        if p.is_ok() != dew.is_ok() {
+            return Err(format!(
+                "Pattern::new({pat:?}).is_ok()={} but Dewey::new(..).is_ok()={}",
+                p.is_ok(),
+                dew.is_ok()
+            )
+            .into());
+        }
+        p.ok()
+    } else {
+        None
+    };
+    let (DeweyParse::Ok(d), Ok(dew)) = (&want, &dew) else { return Ok(()) };
+    let p = p.expect("checked above");
+    let mut nontrivial = d.bounds.len() == 2;
+    for (name, rel) in names {
+        let gd = dew.matches(name);
+        let gp = p.matches(name);
+        ev.evals(2);
+        if gd != gp {
+            return Err(format!(
+                "Dewey and Pattern disagree for {pat:?} on {name:?}: Dewey={gd} Pattern={gp}"
+            )
+            .into());
+        }
+        if let Some(w) = expected_match(d, name) {
+            ev.count(&format!("match/{class}/{rel}/{w}"));
+            if gd != w {
+                return Err(format!(
+                    "{pat:?} on {name:?} ({rel} base): observed {gd}, expected {w} \
+                     (base {:?}, bounds {:?})",
+                    d.base,
+                    d.bounds.iter().map(|(o, b)| format!("{}{}", o.text(), b)).collect::<Vec<_>>()
+                )
+                .into());
+            }
+            if *rel != "same" {
+                nontrivial = true;
+            }
+        } else {
+            ev.count("match/skipped-out-of-domain");
+        }
+    }
+    if nontrivial {
+        let mut parts: Vec<&[u8]> = vec![pat.as_bytes()];
+        for (n, _) in names {
+            parts.push(n.as_bytes());
+        }
+        ev.nontrivial(hash_strs(&parts));
+    }
+    Ok(())
+}
+
+pub fn run(cx: &mut Cx) {
+    cx.default_budget();
+    for c in ["ops0", "ops1", "ops2", "ops2-badorder", "ops3plus"] {
+        cx.ev.require(&format!("compile/{c}"));
+    }
+    for rel in ["same", "proper-prefix", "proper-suffix", "extension", "extra-segment", "case-changed", "no-dash"] {
+        cx.ev.require(&format!("match/ops1/{rel}/false"));
+    }
+    cx.ev.require("match/ops1/same/true");
+    cx.ev.require("match/ops2/same/true");
+    cx.ev.require("match/ops2/same/false");
+
+    let corpus_bases: Vec<String> = if cx.tier == Tier::Mini {
+        vec![]
+    } else {
+        let mut v: Vec<String> = corpus::names()
+            .iter()
+            .filter_map(|n| opat::split_name(n).map(|(b, _)| b.to_string()))
+            .collect();
+        v.dedup();
+        v
+    };
+
+    let n = cx.per_shard(60, 5_000, 120_000, 1_500_000);
+    let mut r = cx.stream("generated");
+    for _ in 0..n {
+        let base = if !corpus_bases.is_empty() && r.chance(1, 4) {
+            r.pick(&corpus_bases).clone()
+        } else {
+            r.pick(&BASES).to_string()
+        };
+        let ops = opseq(&mut r);
+        let mut pat = base.clone();
+        let mut bounds = vec![];
+        for op in &ops {
+            let b = bound(&mut r);
+            pat.push_str(op.text());
+            pat.push_str(&b);
+            bounds.push(b);
+        }
+        if ops.is_empty() {
+            // an operator-free text through Dewey::new only
+            pat.push_str(&bound(&mut r));
+        }
+        if pat.contains('{') || pat.contains('}') {
+            continue;
+        }
+        // candidate names
+        let mut names: Vec<(String, &'static str)> = vec![];
+        let k = r.range(3, 7);
+        for _ in 0..k {
+            let (b2, rel) = related_base(&mut r, &base);
+            // versions near the bounds so that both verdicts occur
+            let v = if !bounds.is_empty() && r.chance(2, 3) {
+                let b = r.pick(&bounds).clone();
+                if r.chance(1, 3) {
+                    b
+                } else {
+                    gv::neighbour(&mut r, &b, false)
+                }
+            } else {
+                gv::v_safe(&mut r)
+            };
+            names.push((format!("{b2}-{v}"), rel));
+        }
+        match r.below(6) {
+            0 => names.push((base.clone(), "no-dash")),
+            1 => names.push((String::new(), "no-dash")),
+            2 => names.push((format!("{base}{}", gv::v_safe(&mut r)), "no-dash")),
+            _ => {}
+        }
+        for (n, rel) in names.iter_mut() {
+            if !n.contains('-') {
+                *rel = "no-dash";
+            }
+        }
+        cx.check(
+            || format!("pattern {pat:?} names {:?}", names.iter().map(|n| &n.0).collect::<Vec<_>>()),
+            |ev| check_case(ev, &pat, &names),
+        );
+    }
+
+    // Systematic operator sequences: every sequence of 0..=3 operators, and
+    // adjacency forms, on a fixed base.
+    if cx.shard == 0 {
+        let mut seqs: Vec<Vec<Op>> = vec![vec![]];
+        for a in OPS {
+            seqs.push(vec![a]);
+            for b in OPS {
+                seqs.push(vec![a, b]);
+                for c in OPS {
+                    seqs.push(vec![a, b, c]);
+                }
+            }
+        }
+        for s in &seqs {
+            for bounds in [["1", "2", "3"], ["", "", ""], ["1", "", "2"]] {
+                let mut pat = String::from("foo");
+                for (i, op) in s.iter().enumerate() {
+                    pat.push_str(op.text());
+                    pat.push_str(bounds[i]);
+                }
+                let names: Vec<(String, &'static str)> = ["foo-0", "foo-1", "foo-1.5", "foo-2", "foo-3", "foo-", "foo", "fo-1.5", "foo-x-1.5"]
+                    .iter()
+                    .map(|n| {
+                        let rel = match *n {
+                            "foo" => "no-dash",
+                            "fo-1.5" => "proper-prefix",
+                            "foo-x-1.5" => "extra-segment",
+                            _ => "same",
+                        };
+                        (n.to_string(), rel)
+                    })
+                    .collect();
+                cx.check(
+                    || format!("systematic operator sequence {pat:?}"),
+                    |ev| {
+                        ev.count("workload/systematic-opseq");
+                        check_case(ev, &pat, &names)
+                    },
+                );
+            }
+        }
+    }
+
+    // Corpus: real comparison patterns against real names sharing a prefix.
+    if cx.tier != Tier::Mini {
+        let pats = corpus::patterns();
+        let mut names = corpus::names();
+        names.sort();
+        let step = cx.pick_tier(64u64, 32, 8, 1);
+        let mut r = cx.stream("corpus");
+        let mut i = 0u64;
+        for p in &pats {
+            if p.contains('{') || p.contains('}') || opat::scan_ops(p).is_empty() {
+                continue;
+            }
+            i += 1;
+            if i % step != 0 || !cx.mine(i / step) {
+                continue;
+            }
+            let DeweyParse::Ok(d) = opat::parse_dewey(p) else { continue };
+            // names whose text starts with the base (same base, extensions,
+            // extra segments) plus a few random ones
+            let lo = names.partition_point(|n| n.as_str() < d.base.as_str());
+            let mut cand: Vec<(String, &'static str)> = vec![];
+            for n in names[lo..].iter().take_while(|n| n.starts_with(&d.base)).take(12) {
+                let rel = match opat::split_name(n) {
+                    Some((b, _)) if b == d.base => "same",
+                    Some(_) => "extension",
+                    None => "no-dash",
+                };
+                cand.push((n.clone(), rel));
+            }
+            for _ in 0..3 {
+                let n = r.pick(&names).clone();
+                let rel = match opat::split_name(&n) {
+                    Some((b, _)) if b == d.base => "same",
+                    _ => "other",
+                };
+                cand.push((n, rel));
+            }
+            cx.check(
+                || format!("corpus pattern {p:?} x {} names", cand.len()),
+                |ev| {
+                    ev.count("workload/corpus");
+                    check_case(ev, p, &cand)
+                },
+            );
+        }
+    }
+}
